@@ -973,7 +973,7 @@ func specLE(b []byte, v int32) bool {
 }
 
 //@ func handleMOV
-//@ props C01 C03
+//@ props C01 C03 C07
 //@ option no-panic-obligations unroll-appends
 //@ requires ctx != nil && (ctx.BitMode == cpu.MODE_16BIT || ctx.BitMode == cpu.MODE_32BIT)
 //@ calls[mode] (*ng_operand.OperandPegImpl).WithBitMode : arg1 == ctx.BitMode
@@ -991,6 +991,7 @@ func specLE(b []byte, v int32) bool {
 //@ ensures[layout.moffs] result0 != nil && vcCalled("DisplacementBytes") ==> specPartAt(result0, specB2I((vcResult[bool]("Require66h", 0) && !vcResult[bool]("IsControlRegisterOperation", 0)))+specB2I(vcResult[bool]("Require67h", 0))+len(vcResult[[]byte]("ResolveOpcode", 0)), vcResult[[]byte]("DisplacementBytes", 0))
 //@ ensures[layout.imm] result0 != nil && vcCalled("getImmediateValue") ==> specPartAt(result0, len(result0)-len(vcResult[[]byte]("getImmediateValue", 0)), vcResult[[]byte]("getImmediateValue", 0))
 //@ ensures[layout.imm.label] result0 != nil && vcResult[*asmdb.Encoding]("FindEncoding", 0).Immediate != nil && specSymImm(ctx.SymTable, operands[specIndex(vcResult[*asmdb.Encoding]("FindEncoding", 0).Immediate.Value)]) ==> vcResult[*asmdb.Encoding]("FindEncoding", 0).Immediate.Size <= len(result0) && specLE(result0[len(result0)-vcResult[*asmdb.Encoding]("FindEncoding", 0).Immediate.Size:], ctx.SymTable[operands[specIndex(vcResult[*asmdb.Encoding]("FindEncoding", 0).Immediate.Value)]])
+//@ ensures[diag@C07] result0 == nil ==> vcLoggedError()
 //@ assigns OperandPegImpl.bitMode, OperandPegImpl.forceRelAsImm, OperandType[]
 
 // IMUL: the two-operand immediate form IMUL r, imm is 69 /r id (6B /r ib) with the register in both
